@@ -38,6 +38,18 @@ Fixpoint tag_no_case (t : text) (s : text) : option (text * text) :=
   | _ :: _, [] => None
   end.
 
+(* the parser's own tag_no_case for a keyword that starts with a letter: the keyword must end at a word boundary
+   (`trueval` is an identifier, not `true` followed by `val`) *)
+Definition tag_no_case_word (t : text) (s : text) : option (text * text) :=
+  match tag_no_case t s with
+  | Some (m, r) =>
+      match r with
+      | c :: _ => if is_alnum c || (c =? 95) then None else Some (m, r)
+      | [] => Some (m, r)
+      end
+  | None => None
+  end.
+
 (* c_comment: nested /* */; an unterminated comment swallows the rest of the input *)
 Fixpoint c_comment_body (depth : nat) (s : text) : text :=
   match s with
@@ -125,8 +137,8 @@ Definition number (s : text) : option ((bool -> bool -> expr) * text) :=
               | None => None end in
   match binp with Some x => Some x | None =>
   match many1 is_digit (ws s) with Some (d, r') => Some (ENum 10 d, r') | None =>
-  match tag_no_case t_true_tag (ws s) with Some (d, r') => Some (ENum 10 d, r') | None =>
-  match tag_no_case t_false_tag (ws s) with Some (d, r') => Some (ENum 10 d, r') | None => None
+  match tag_no_case_word t_true_tag (ws s) with Some (d, r') => Some (ENum 10 d, r') | None =>
+  match tag_no_case_word t_false_tag (ws s) with Some (d, r') => Some (ENum 10 d, r') | None => None
   end end end end end.
 
 (* interpolated_string *)
